@@ -32,6 +32,7 @@ def selOk (s : SchemaD) (doc : Doc) (vars : Vars) (T : String) : Sel → Bool
   | .field _ name _ dirs _ hasSub sub =>
     dirsOk vars dirs &&
     (if name == "__typename" then !hasSub
+     else if isMeta name then false            -- `__schema` / `__type`: introspection is outside this predicate (C15)
      else
       match fieldOf s T name with
       | none => false
